@@ -177,6 +177,7 @@ func main() {
 	verbose := flag.Bool("v", false, "print every obligation")
 	noEvidence := flag.Bool("no-evidence", false, "do not write evidence files")
 	tags := flag.String("tags", "", "build tags")
+	witnessSel := flag.String("witness", "", "run sensitivity witnesses of -prop: all or a name")
 	dump := flag.String("dump", "", "debug: dump functions pkg:Name[,pkg:Name]")
 	flag.Parse()
 
@@ -223,6 +224,52 @@ func main() {
 		os.Exit(2)
 	}
 
+	if *witnessSel != "" && *dump != "" {
+		for _, wt := range witnesses {
+			if wt.Name == *witnessSel {
+				ov, skip := applyEdits(*repo, wt)
+				if skip != "" {
+					fmt.Println(skip)
+					os.Exit(2)
+				}
+				w, err := Load(LoadOpts{Dir: *repo, Overlay: ov})
+				if err != nil {
+					fmt.Println(err)
+					os.Exit(2)
+				}
+				for _, d := range strings.Split(*dump, ",") {
+					pn := strings.SplitN(d, ":", 2)
+					if f := w.Fn(pn[0], pn[1]); f != nil {
+						dumpFunc(w, f)
+					}
+				}
+				if *prop != "" {
+					pr := runProp(w, *prop, "quick", ff)
+					for _, o := range pr.obls {
+						if o.Status != "ok" {
+							fmt.Printf("    %-9s %s %s %s — %s\n", o.Status, o.Rule, o.Key, o.Pos, o.Msg)
+						}
+					}
+				}
+			}
+		}
+		return
+	}
+	if *witnessSel != "" {
+		bad := 0
+		for _, p := range strings.Split(*prop, ",") {
+			for _, r := range runWitnessSet(*repo, p, *witnessSel, ff) {
+				fmt.Printf("%-8s %-7s %s %s (%s): %s\n", r.Status, r.Kind, r.Prop, r.Name, r.Rule, r.Msg)
+				if r.Status == "broken" || r.Status == "skipped" {
+					bad++
+				}
+			}
+		}
+		if bad > 0 {
+			os.Exit(2)
+		}
+		return
+	}
 	t0 := time.Now()
 	w, err := Load(LoadOpts{Dir: *repo, Tags: *tags})
 	if err != nil {
